@@ -4,6 +4,49 @@ import random
 from .. import monitors as M, gen
 
 
+def listing_fault_case():
+    """a sub folder whose listing fails (no permission, a stale mount): the run may stop with the error, but it never
+    records or prints directory hashes as if the folder were empty"""
+    import os, glob
+    from .. import rt, oracles as O
+    fails = []
+    with rt.tempdir("c07f_") as d:
+        root = os.path.join(d, "root")
+        tree = {"a.txt": "a", "locked/x.mov": "x", "locked/y.mov": "y", "open/z.mov": "z"}
+        rt.mk(root, tree)
+        bad = os.path.join(root, "locked")
+        real_listdir, real_scandir = os.listdir, os.scandir
+
+        def listdir(p="."):
+            if os.path.abspath(os.fspath(p)) == bad:
+                raise PermissionError(13, "Permission denied (injected)", bad)
+            return real_listdir(p)
+
+        def scandir(p="."):
+            if os.path.abspath(os.fspath(p)) == bad:
+                raise PermissionError(13, "Permission denied (injected)", bad)
+            return real_scandir(p)
+
+        os.listdir, os.scandir = listdir, scandir
+        try:
+            x = rt.run("create", [root, "-h", "md5"], "2026-03-01 12:00:01")
+            y = rt.run("verify", [root, "-dh", "-co", "-h", "md5"], "2026-03-01 12:00:02")
+        finally:
+            os.listdir, os.scandir = real_listdir, real_scandir
+        ms = glob.glob(os.path.join(root, "ascmhl", "*.mhl"))
+        empty_md5 = rt.digest("md5", b"")
+        if ms:
+            m = rt.read_manifest(ms[0])
+            for r in m["records"]:
+                if r["kind"] == "dir" and r["path"] == "locked" and any(e["digest"] == empty_md5 for e in r["entries"]):
+                    fails.append({"what": f"create (exit {x.exit}) on a tree whose folder 'locked' cannot be listed records the directory hash of an EMPTY folder for it ({empty_md5}); the folder holds two files", "replay": {"case": "listing fault"}})
+            if x.exit == 0 and not any(r["path"].startswith("locked/") for r in m["records"]):
+                fails.append({"what": "create exits 0 on a tree whose folder 'locked' cannot be listed and records none of its files", "replay": {"case": "listing fault"}})
+        if y.exit == 0 and y.exc is None and "locked" in y.out and empty_md5 in y.out:
+            fails.append({"what": f"verify -dh -co prints the hash of an empty folder for 'locked', which cannot be listed", "replay": {"case": "listing fault"}})
+    return fails
+
+
 def run(ctx):
     scs = _scn.standard_pool(ctx, ctx.scale(70, 1200), ctx.scale(30, 500))
     # content edits that keep length and modification time ("the content hash changes whenever the content of any
@@ -55,7 +98,7 @@ def run(ctx):
         ops = [{"op": "create", "at": "", "h": gen.fmt_subset(rnd, (1, 2)), "now": "2026-03-01 12:00:01", "i": pats}, {"op": "verifydh", "at": "", "co": True}, {"op": "verifydh", "at": ""},
                {"op": "create", "at": "", "h": gen.fmt_subset(rnd, (1, 2)), "now": "2026-03-01 12:00:02"}, {"op": "verifydh", "at": "", "co": True, "i": ["*.bak"]}]
         scs.append({"seed": i, "profile": "c07-ignored", "root": "root", "tree": gen.tree_dict(fs), "ops": ops})
-    return _scn.run_scn(ctx, scs, M.m_c07, assumptions=["reference evaluation of the compositional definition with the libraries' one-shot digests (harness/oracles.py ref_dirhashes)"])
+    return _scn.run_scn(ctx, scs, M.m_c07, extra_fails=listing_fault_case(), assumptions=["reference evaluation of the compositional definition with the libraries' one-shot digests (harness/oracles.py ref_dirhashes)"])
 
 
 def replay(ctx, path):
